@@ -274,6 +274,40 @@ def work(job):
     return r
 
 
+# heading titles at the edge of what an outline item can carry: each shape has its own key (they are recorded findings, see known_findings.json)
+TITLE_SHAPES = [
+    ('empty-title', b'# One\n\ntext\n\n## ##\n\nfoo\n'),
+    ('title-spelled-like-the-preamble-item', b'# >>Preamble<< #\n\nbar\n'),
+    ('setext-title-ending-in-a-hash', b'foo #\n===\n\nx\n'),
+]
+
+
+def work_title_shapes(job):
+    seed, = job
+    r = core.JobResult()
+    with core.Session(r) as s:
+        for name, src in TITLE_SHAPES:
+            rq0 = D.req_to_json('asan', 'CONVERT', D.FMT['opml'], D.EXT_CLI, 0, 1 | (1 << 4), [src])
+            rep = s.call('asan', *D.req_from_json(rq0), crash_is_violation=False)
+            r.evaluations += 1
+            if rep is None or rep.status:
+                continue
+            ext = D.EXT_CLI | D.EXT['SNIPPET']
+            rq1 = D.req_to_json('asan', 'CONVERT', 0, ext, 0, 1 | (1 << 4), [src])
+            rq2 = D.req_to_json('asan', 'CONVERT', 0, ext | D.EXT['PARSE_OPML'], 0, 1 | (1 << 4), [rep.out])
+            a = s.call('asan', *D.req_from_json(rq1), crash_is_violation=False)
+            b = s.call('asan', *D.req_from_json(rq2), crash_is_violation=False)
+            r.evaluations += 2
+            if a is None or b is None or a.status or b.status:
+                continue
+            r.stats['title_shapes_compared'] += 1
+            r.distinct.add(('shape', name))
+            if a.out != b.out:
+                r.violate('roundtrip:opml:body:%s' % name, 'html(import(opml(src))) differs from html(src) for a heading with %s' % name.replace('-', ' '), dict(requests=[rq0, rq1, rq2]),
+                          'direct : %s\nvia opml: %s\nsource: %s' % (core.show(a.out, 200), core.show(b.out, 200), core.show(src, 200)))
+    return r
+
+
 def main():
     chk = core.Check(ID)
     n = chk.scale(10000, 200000)
@@ -284,4 +318,5 @@ def main():
     chk.assumptions = ['a blank line precedes every generated heading', 'CR in notes compared modulo XML attribute-value normalisation on the reading side (expat), round trip not judged for sources with CR']
     chunk = max(20, n // 64)
     chk.run_jobs(work, [(chk.seed, lo, min(n, lo + chunk)) for lo in range(0, n, chunk)])
+    chk.run_jobs(work_title_shapes, [(chk.seed,)])
     return chk.finish()
